@@ -96,6 +96,14 @@ pub struct Cfg {
     /// only honoured by the standalone file format
     pub param_case: Option<String>,
     pub field_case: Option<String>,
+    /// CLI only: the configuration *file* names this library while `-v <mode>` on
+    /// the command line overrides it (`mode` is always the effective one)
+    #[serde(default)]
+    pub file_mode: Option<String>,
+    /// CLI only: the file says no visualisation, `--visualize-deps` turns it on
+    /// (`visualize` is always the effective setting)
+    #[serde(default)]
+    pub flag_visualize: bool,
 }
 
 impl Cfg {
@@ -108,7 +116,15 @@ impl Cfg {
             force: None,
             param_case: None,
             field_case: None,
+            file_mode: None,
+            flag_visualize: false,
         }
+    }
+    fn mode_in_file(&self) -> String {
+        self.file_mode.clone().unwrap_or_else(|| self.mode.clone())
+    }
+    fn visualize_in_file(&self) -> bool {
+        self.visualize && !self.flag_visualize
     }
 }
 
@@ -253,8 +269,8 @@ impl World {
                 let mut t = serde_json::Map::new();
                 t.insert("projectPath".into(), self.project_arg(s).into());
                 t.insert("outputPath".into(), self.output_arg(s).into());
-                t.insert("validationLibrary".into(), c.mode.clone().into());
-                if c.visualize {
+                t.insert("validationLibrary".into(), c.mode_in_file().into());
+                if c.visualize_in_file() {
                     t.insert("visualizeDeps".into(), true.into());
                 }
                 if let Some(b) = c.include_private {
@@ -272,8 +288,8 @@ impl World {
                 let mut t = serde_json::Map::new();
                 t.insert("project_path".into(), self.project_arg(s).into());
                 t.insert("output_path".into(), self.output_arg(s).into());
-                t.insert("validation_library".into(), c.mode.clone().into());
-                if c.visualize {
+                t.insert("validation_library".into(), c.mode_in_file().into());
+                if c.visualize_in_file() {
                     t.insert("visualize_deps".into(), true.into());
                 }
                 if let Some(b) = c.include_private {
@@ -305,6 +321,15 @@ impl World {
     /// The command line (CLI entry) for a generate run.
     pub fn argv(&self, s: &Setup, c: &Cfg, force_flag: bool, verbose: bool) -> Vec<String> {
         let mut a: Vec<String> = vec!["cargo".into(), "tauri-typegen".into(), "generate".into()];
+        if s.conf != ConfSrc::Flags {
+            if c.file_mode.is_some() {
+                a.push("-v".into());
+                a.push(c.mode.clone());
+            }
+            if c.flag_visualize {
+                a.push("--visualize-deps".into());
+            }
+        }
         match s.conf {
             ConfSrc::Tauri => {}
             ConfSrc::Standalone => {
